@@ -691,6 +691,50 @@ func (h *Hist) ExtendBest(n int) {
 	h.SkipChecks = skip
 }
 
+// BigReorg is a directed history around a size boundary: a heavy header H on top of the current best; from H's parent
+// a side branch of n light headers (all STALE while H leads); then one header heavy enough to overtake. The
+// reorganisation then promotes exactly n stored stale headers (and demotes one) in one go: batch sizes, statement
+// parameter limits and portioned updates meet their boundaries here and nowhere else.
+func (h *Hist) BigReorg(n int) {
+	skip := h.SkipChecks
+	h.SkipChecks = true
+	base := h.m.Best()
+	mk := func(prev Hash32, bits uint32) RawHeader {
+		raw := RawHeader{Prev: prev, Merkle: h.uniqueHash("merkle"), Version: 0x20000000, Bits: bits}
+		raw.Time = h.baseTs + h.ctr*600
+		raw.Nonce = h.ctr
+		return raw
+	}
+	h.Submit(mk(base.Hash, 0x1c00ffff), "big-main")
+	prev := base.Hash
+	for i := 0; i < n; i++ {
+		raw := mk(prev, 0x207fffff)
+		h.Submit(raw, "big-side")
+		prev = raw.Hash()
+	}
+	h.SkipChecks = skip
+	h.r.Probe("big-reorg")
+	h.Submit(mk(prev, 0x1b0404cb), "big-overtake")
+}
+
+// bigReorgSizes: lengths around the usual batch and parameter boundaries.
+var bigReorgSizes = []int{63, 64, 65, 99, 100, 101, 127, 128, 129, 249, 250, 251, 255, 256, 257, 499, 500, 501, 511, 512, 513, 999, 1000, 1001, 1023, 1024, 1025}
+
+// MaybeBigReorg runs BigReorg in one run out of den, with a drawn boundary size (small ones more often).
+func (h *Hist) MaybeBigReorg(den int) bool {
+	t := h.r.T
+	if h.r.Opt["bigreorg"] != "1" && !t.Chance(1, den, "big-reorg") {
+		return false
+	}
+	// three size bands, the cheap one most often
+	band := t.Pick([]int{50, 35, 15}, "big-reorg-band")
+	lo, hi := []int{0, 9, 18}[band], []int{9, 21, 27}[band]
+	n := bigReorgSizes[lo+t.Draw(hi-lo, "big-reorg-size")]
+	h.r.Cfg["big_reorg"] = n
+	h.BigReorg(n)
+	return true
+}
+
 func boolInt(b bool) int {
 	if b {
 		return 1
